@@ -274,6 +274,56 @@ func runC20FallbackResolver(c *Ctx) {
 	if n == 0 {
 		c.Bad("C20.9", "fallbackResolver", "delegates-same-question", token.NoPos, "no Find* method on the fallback resolver: shape changed")
 	}
+	// C20.12 (seed C20m): protobuf-go asks a resolver and compares the answer with the
+	// sentinel by IDENTITY (`err != protoregistry.NotFound` in proto/decode.go and
+	// protojson/decode.go): only the sentinel itself means 'unknown extension, keep it as an
+	// unknown field'; anything else - also an error that merely WRAPS the sentinel - aborts the
+	// decode.  The global registry that generated services use returns the sentinel itself, so the
+	// fallback resolver of dynamically loaded services has to as well: every error its Find*
+	// methods return is nil, protoregistry.NotFound, or the error a member returned - unchanged.
+	c.Rule("C20.12", "the fallback resolver answers 'not found' with the registry's own sentinel or a member's error, never a new or wrapping error", 1)
+	n12 := 0
+	for _, fn := range p.Funcs {
+		if !p.inScope(fn) || fn.Signature.Recv() == nil || fn.Synthetic != "" {
+			continue
+		}
+		rt := fn.Signature.Recv().Type()
+		if pt, ok := rt.(*types.Pointer); ok {
+			rt = pt.Elem()
+		}
+		if !types.Identical(rt, fb) || !strings.HasPrefix(N(fn), "Find") {
+			continue
+		}
+		ei := fn.Signature.Results().Len() - 1
+		ForEachInstr(fn, func(in ssa.Instruction) {
+			ret, ok := in.(*ssa.Return)
+			if !ok {
+				return
+			}
+			rv := ReturnValues(ret)
+			if ei < 0 || ei >= len(rv) {
+				return
+			}
+			n12++
+			bad := ""
+			for _, l := range p.OriginsDeep(rv[ei]) {
+				switch {
+				case l.Kind == "const", l.Kind == "nil":
+				case l.Kind == "global" && N(l.V) == "NotFound":
+				case l.Kind == "load" && strings.HasSuffix(l.Path, "NotFound"):
+				case l.Kind == "call" && l.Call.Common().IsInvoke() && strings.HasPrefix(N(l.Call.Common().Method), "Find"):
+				default:
+					bad = l.String()
+				}
+			}
+			c.Check(bad == "", "C20.12", FuncName(fn), "not-found-is-the-sentinel-itself", ret.Pos(),
+				"the returned error is nil, the registry's sentinel or a member's own error",
+				"this return of the fallback resolver can yield an error made here ("+bad+"): protobuf-go recognises 'not found' by identity, so a payload with an unregistered extension or \"[pkg.ext]\" key fails for dynamically loaded services while generated ones treat it as an unknown field")
+		})
+	}
+	if n12 == 0 {
+		c.Bad("C20.12", "fallbackResolver", "not-found-is-the-sentinel-itself", token.NoPos, "no Find* method on the fallback resolver: shape changed")
+	}
 	c.Rule("C20.10", "a bespoke resolver built from the service's files falls back to the global registry", 1)
 	nB := 0
 	for _, fn := range p.Funcs {
